@@ -24,3 +24,23 @@ package presign
 //@   requires c != nil ==> cfgwf(c)
 //@   ensures[C20] result1 != nil ==> result0 == nil
 //@   ensures[C20] result1 == nil ==> (c != nil && preSignature != nil && len(message) > 0 && lastresult(CanSign) && result0 != nil)
+
+// ---- identifiable abort (C04): the entry stored under id in the sender's proof map opens the ciphertext that id
+// sent TO THE SENDER (presign6/presign7 publish, under key j, the opening of D[j][self]); it must be checked against
+// exactly that ciphertext, otherwise honest openings fail and the honest sender is blamed.
+//@ func (*abort1).StoreBroadcastMessage
+//@   requires r != nil && msg.Content != nil
+//@   assert_at[C04] Verify "if !deltaProof.Verify(r.HashForID(from)": arg3 == r.DeltaCiphertext[id][msg.From] && arg2 == r.Paillier[msg.From]
+//@   assert_at[C04,C05] Verify "if !deltaProof.Verify(r.HashForID(from)": arg0 != nil && arg0.Plaintext != nil && id != msg.From
+//@   let body = msg.Content.(*broadcastAbort1)
+//@   loop 1: invariant forall(k, party.ID, visited(1, k) ==> (body.DeltaProofs[k] != nil && body.DeltaProofs[k].Plaintext != nil && k != msg.From))
+//@   loop 2: invariant forall(k, party.ID, indom(body.DeltaProofs, k) ==> (body.DeltaProofs[k] != nil && body.DeltaProofs[k].Plaintext != nil && k != msg.From))
+//@   loop 3: invariant forall(k, party.ID, indom(body.DeltaProofs, k) ==> (body.DeltaProofs[k] != nil && body.DeltaProofs[k].Plaintext != nil && k != msg.From))
+//@ func (*abort2).StoreBroadcastMessage
+//@   requires r != nil && msg.Content != nil
+//@   assert_at[C04] Verify "if !chiProof.Verify(r.HashForID(from)": arg3 == r.ChiCiphertext[id][msg.From] && arg2 == r.Paillier[msg.From]
+//@   assert_at[C04,C05] Verify "if !chiProof.Verify(r.HashForID(from)": arg0 != nil && arg0.Plaintext != nil && id != msg.From
+//@   let body = msg.Content.(*broadcastAbort2)
+//@   loop 1: invariant forall(k, party.ID, visited(1, k) ==> (body.ChiProofs[k] != nil && body.ChiProofs[k].Plaintext != nil && k != msg.From))
+//@   loop 2: invariant forall(k, party.ID, indom(body.ChiProofs, k) ==> (body.ChiProofs[k] != nil && body.ChiProofs[k].Plaintext != nil && k != msg.From))
+//@   loop 3: invariant forall(k, party.ID, indom(body.ChiProofs, k) ==> (body.ChiProofs[k] != nil && body.ChiProofs[k].Plaintext != nil && k != msg.From))
